@@ -18,7 +18,7 @@ import numpy as np
 import z3
 
 from .. import pysym
-from ..core import Inconclusive, model_value
+from ..core import model_value
 from ..pysym import SymBool, SymNum, fresh_int, fresh_real
 
 META = dict(
